@@ -83,6 +83,8 @@ class Spec:
         self.ret = kw.get("ret", "{e}")
         self.result_type = kw["result_type"]
         self.end_return = kw.get("end_return")
+        self.test_map = dict(kw.get("test_map", {}))            # {unparse(test expression): lean Prop} used only where the expression is a condition
+        self.ret_option = kw.get("ret_option", False)           # the function returns Optional[T]: None -> none, e -> some e
         self.asserts = kw.get("asserts", "drop")                # "drop" | "error" (leave with assert_exit) | "except" (leave with `.error assert_error`)
         self.assert_exit = kw.get("assert_exit")
         self.assert_error = kw.get("assert_error")
@@ -233,6 +235,13 @@ class Translator:
     # ------------------------------------------------------------------ expressions
     def name(self, n):
         return self.spec.rename.get(n, n)
+
+    def test(self, e):
+        """a condition (`if` / `while` / `assert` test): Python truthiness of a non-boolean value is a modelling decision, given by test_map"""
+        u = ast.unparse(e)
+        if u in self.spec.test_map:
+            return self.spec.test_map[u]
+        return self.expr(e)
 
     def expr(self, e):
         sp = self.spec
@@ -425,6 +434,10 @@ class Translator:
                 d.add(v)
             return out + self.block(rest, k, d)
         if isinstance(s, ast.Return):
+            if sp.ret_option:       # Optional[...] result: `return None` is none, `return e` is some e
+                if s.value is None or (isinstance(s.value, ast.Constant) and s.value.value is None):
+                    return k.ret("none", defined)
+                return k.ret("(some %s)" % self.expr(s.value), defined)
             return k.ret(self.expr(s.value) if s.value is not None else None, defined)
         if isinstance(s, ast.Break):
             if k.brk is None:
@@ -442,15 +455,15 @@ class Translator:
                     return ["Except.error " + val]
             U("raise statement not in the spec's raise_map: " + u[:80])
         if isinstance(s, ast.Assert) and sp.asserts == "except":
-            return ["if %s then" % self.expr(s.test)] + ind(self.block(rest, k, defined)) + ["else"] + ind(["Except.error " + sp.assert_error])
+            return ["if %s then" % self.test(s.test)] + ind(self.block(rest, k, defined)) + ["else"] + ind(["Except.error " + sp.assert_error])
         if isinstance(s, ast.Assert) and sp.asserts == "error":
-            return ["if %s then" % self.expr(s.test)] + ind(self.block(rest, k, defined)) + ["else"] + \
+            return ["if %s then" % self.test(s.test)] + ind(self.block(rest, k, defined)) + ["else"] + \
                 ind(k.ret(None, defined, error=True))
         if isinstance(s, ast.If):
             ctrl = ("return", "break", "continue", "assert", "loop", "raise")
             if _has_ctrl(s.body, ctrl, sp) or _has_ctrl(s.orelse, ctrl, sp):
                 # duplicate the continuation into both branches
-                return ["if %s then" % self.expr(s.test)] + ind(self.block(list(s.body) + rest, k, defined)) + ["else"] + \
+                return ["if %s then" % self.test(s.test)] + ind(self.block(list(s.body) + rest, k, defined)) + ["else"] + \
                     ind(self.block(list(s.orelse) + rest, k, defined))
             mod = [v for v in _assigned(list(s.body) + list(s.orelse), sp)]
             # variables first defined inside the branches and not needed later are branch-local
@@ -465,9 +478,9 @@ class Translator:
             kb = K(lambda d: [tup], None)
             tb_ = self.block(list(s.body), kb, defined)
             eb = self.block(list(s.orelse), kb, defined)
-            rhs = ["if %s then" % self.expr(s.test)] + ind(tb_) + ["else"] + ind(eb)
+            rhs = ["if %s then" % self.test(s.test)] + ind(tb_) + ["else"] + ind(eb)
             if len(tb_) == 1 and len(eb) == 1:
-                rhs = ["if %s then %s else %s" % (self.expr(s.test), tb_[0], eb[0])]
+                rhs = ["if %s then %s else %s" % (self.test(s.test), tb_[0], eb[0])]
             return self.bind_tuple(live, rhs, self.block(rest, k, defined))
         if isinstance(s, ast.Try) and sp.try_passthrough and not s.orelse and not s.finalbody and \
                 all(len(h.body) == 1 and isinstance(h.body[-1], ast.Raise) or (len(h.body) == 2 and isinstance(h.body[-1], ast.Raise)) for h in s.handlers):
@@ -594,7 +607,7 @@ class Translator:
         kb = K(again, None, brk=lambda d: [OK + st_tuple], cont=again)
         call_holder["call"] = "%s __INV__ fuel %s" % (aux, " ".join(state))
         body = self.block(list(s.body), kb, set(defined))
-        cond = self.expr(s.test)
+        cond = self.test(s.test)
         inv = self._order(self._free(body + [cond], defined, set(state)))
         call = ("%s %s fuel %s" % (aux, " ".join(inv), " ".join(state))).replace("  ", " ")
         body = [ln.replace("%s __INV__ fuel" % aux, ("%s %s fuel" % (aux, " ".join(inv))).replace("  ", " ")) for ln in body]
@@ -631,26 +644,30 @@ class Translator:
         if " " in elem_ty and not elem_ty.startswith("("):
             elem_ty = "(" + elem_ty + ")"
         state = [v for v in _assigned(s.body, sp) if v in defined]
-        if not state:
-            U("for loop without state")
-        if _has_ctrl(s.body, ("return",), sp):
-            U("return inside for")
+        hasret = _has_ctrl(s.body, ("return",), sp)
         err = sp.asserts == "error" and _has_ctrl(s.body, ("assert",), sp)
         exc = sp.except_mode and _has_ctrl(s.body, ("raise",), sp)
         if err and exc:
             U("assert-as-error and raise in one loop")
+        if hasret and (err or exc):
+            U("return together with assert-exit / raise in one for loop")
+        if hasret:
+            return self.for_loop_ret(s, rest, k, defined, aux, pat, pat_vars, it, ukey, elem_ty, state)
         opt = any(isinstance(n, ast.While) for n in ast.walk(s)) or any(ast.unparse(n) in sp.pop_map for n in ast.walk(s) if isinstance(n, ast.stmt))
         if opt:
             U("while / stream draw nested in for")
-        st_tuple = self.tuple_of(state)
+        if not state and not exc:
+            U("for loop without state")
+        st_tuple = self.tuple_of(state) if state else "()"
+        st_ty = self.tuple_ty(state) if state else "Unit"
         res_tuple = "(%s, true)" % st_tuple if err else st_tuple
-        res_ty = "(%s × Bool)" % self.tuple_ty(state) if err else self.tuple_ty(state)
+        res_ty = "(%s × Bool)" % st_ty if err else st_ty
         if exc:
             res_tuple = "Except.ok " + st_tuple
-            res_ty = "Except %s (%s)" % (sp.error_type, self.tuple_ty(state))
+            res_ty = "Except %s (%s)" % (sp.error_type, st_ty)
 
         def again(d):
-            return ["%s __INV__ rest__ %s" % (aux, " ".join(state))]
+            return [("%s __INV__ rest__ %s" % (aux, " ".join(state))).rstrip()]
 
         def on_ret(e, d, error=False):
             if not error:
@@ -662,19 +679,57 @@ class Translator:
         inv_s = (" " + " ".join(inv)) if inv else ""
         body = [ln.replace("%s __INV__ rest__" % aux, "%s%s rest__" % (aux, inv_s)) for ln in body]
         sig_inv = " ".join("(%s : %s)" % (v, self._ty(v)) for v in inv)
+        comma = (", " + ", ".join(state)) if state else ""
         lines = ["/-- `for %s in %s:` of `%s` -/" % (ast.unparse(s.target), ukey, self.fn.name),
-                 ("def %s %s %s : List %s → %s → %s" % (aux, sp.header, sig_inv, elem_ty, " → ".join(self._ty(v) for v in state), res_ty)).replace("  ", " "),
-                 "  | [], %s => %s" % (", ".join(state), res_tuple),
-                 "  | %s :: rest__, %s =>" % (pat, ", ".join(state))] + ind(body, 2)
+                 ("def %s %s %s : %s" % (aux, sp.header, sig_inv, " → ".join(["List " + elem_ty] + [self._ty(v) for v in state] + [res_ty]))).replace("  ", " "),
+                 "  | []%s => %s" % (comma, res_tuple),
+                 "  | %s :: rest__%s =>" % (pat, comma)] + ind(body, 2)
         self.aux.append(lines)
         after = self.block(rest, k, defined)
-        call = ["%s%s %s %s" % (aux, inv_s, it, " ".join(state))]
+        call = [("%s%s %s %s" % (aux, inv_s, it, " ".join(state))).rstrip()]
         if exc:
-            return ["match %s with" % call[0], "| Except.error e__ => Except.error e__", "| Except.ok %s =>" % st_tuple] + ind(after)
+            return ["match %s with" % call[0], "| Except.error e__ => Except.error e__", "| Except.ok %s =>" % (st_tuple if state else "_")] + ind(after)
         if err:
             return ["match %s with" % call[0], "| (%s, false) =>" % st_tuple] + ind(k.ret(None, defined, error=True)) + \
                 ["| (%s, true) =>" % st_tuple] + ind(after)
         return self.bind_tuple(state, call, after)
+
+    def for_loop_ret(self, s, rest, k, defined, aux, pat, pat_vars, it, ukey, elem_ty, state):
+        """a `for` whose body may `return e`: the auxiliary definition yields `Py.Flow.ret e` (leave the function with e)
+        or `Py.Flow.next state` (the loop ran to its end or was left by `break`)"""
+        sp = self.spec
+        opt = any(isinstance(n, ast.While) for n in ast.walk(s)) or any(ast.unparse(n) in sp.pop_map for n in ast.walk(s) if isinstance(n, ast.stmt))
+        if opt:
+            U("while / stream draw nested in for")
+        rty = sp.types.get("return") or sp.result_type
+        st_tuple = self.tuple_of(state) if state else "()"
+        st_ty = self.tuple_ty(state) if state else "Unit"
+        res_next = "Py.Flow.next " + st_tuple
+        res_ty = "Py.Flow (%s) (%s)" % (rty, st_ty)
+
+        def again(d):
+            return [("%s __INV__ rest__ %s" % (aux, " ".join(state))).rstrip()]
+
+        def on_ret(e, d, error=False):
+            if error:
+                U("assert-exit inside a for loop with return")
+            return ["Py.Flow.ret (%s)" % ("()" if e is None else e)]
+        kb = K(again, on_ret, brk=lambda d: [res_next], cont=again)
+        body = self.block(list(s.body), kb, set(defined) | pat_vars)
+        inv = self._order(self._free(body, defined, set(state) | pat_vars))
+        inv_s = (" " + " ".join(inv)) if inv else ""
+        body = [ln.replace("%s __INV__ rest__" % aux, "%s%s rest__" % (aux, inv_s)) for ln in body]
+        sig_inv = " ".join("(%s : %s)" % (v, self._ty(v)) for v in inv)
+        arrow = " → ".join(["List " + elem_ty] + [self._ty(v) for v in state] + [res_ty])
+        comma = (", " + ", ".join(state)) if state else ""
+        lines = ["/-- `for %s in %s:` of `%s` (the body may return) -/" % (ast.unparse(s.target), ukey, self.fn.name),
+                 ("def %s %s %s : %s" % (aux, sp.header, sig_inv, arrow)).replace("  ", " "),
+                 "  | []%s => %s" % (comma, res_next),
+                 "  | %s :: rest__%s =>" % (pat, comma)] + ind(body, 2)
+        self.aux.append(lines)
+        after = self.block(rest, k, defined)
+        call = ("%s%s %s %s" % (aux, inv_s, it, " ".join(state))).rstrip()
+        return ["match %s with" % call, "| Py.Flow.ret r__ =>"] + ind(k.ret("r__", defined)) + ["| Py.Flow.next %s =>" % (st_tuple if state else "_")] + ind(after)
 
     # ------------------------------------------------------------------ function
     def function(self):
